@@ -305,6 +305,7 @@ def _run(case, loop, S, RPCSession, MessageSession, RSTransport, USTransport, Se
 
     trace = []
     lost_time = [None]
+    fault_time = [None]
     pm_done_at_fault = [None]
     script = list(case['script'])
     n = si = 0
@@ -315,6 +316,7 @@ def _run(case, loop, S, RPCSession, MessageSession, RSTransport, USTransport, Se
         labels.clear()
         if n == k and not faulted:
             pm_done_at_fault[0] = pm_task.done()
+            fault_time[0] = loop.time()
             in_loop(do_fault)
             faulted = True
         if si < len(script) and n % 2 == 0:
@@ -350,7 +352,7 @@ def _run(case, loop, S, RPCSession, MessageSession, RSTransport, USTransport, Se
         return {'skipped': True}
     left = [x for x in asyncio.all_tasks(loop) if not x.done()]
     res = {'trace': trace, 'idle': idle, 'hooks': len(hooks), 'hook_time': hooks[0] if hooks else None,
-           'lost_time': lost_time[0], 'pm_done_at_fault': pm_done_at_fault[0],
+           'lost_time': lost_time[0], 'fault_time': fault_time[0], 'pm_done_at_fault': pm_done_at_fault[0],
            'left': len(left), 'lost': t.lost, 'closers_done': all(c.done() for c in closers), 'pm_done': pm_task.done(),
            'outcomes': outcomes, 'started': started, 'time': loop.time(), 'ticks': n,
            'handlers': {str(i): [tk.done(), tk.cancelled() if tk.done() else None] for i, tk in handler_states().items()},
@@ -500,6 +502,15 @@ class C08(Prop):
                 limit = 10 if name == 'closeB' else 30
                 if oc[0] not in ('ok',):
                     return f'{name} ended with {oc[0]}'
+                # close(force_after=T) returns within T of the call, forcing an abort if the graceful close has not finished
+                if obs.get('fault_time') is not None and oc[1] > obs['fault_time'] + limit + 1.0:
+                    return (f'close(force_after={limit}) called at t={obs["fault_time"]} returned only at t={oc[1]}'
+                            + (' (another close was already under way)' if case['fault'] == 'close2' else ''))
+        if case['fault'] in ('close', 'close2', 'close_twice', 'abort_then_close'):
+            want = {'close': ['close'], 'close2': ['closeA', 'closeB'], 'close_twice': ['twice'], 'abort_then_close': ['both']}[case['fault']]
+            for name in want:
+                if name not in obs['outcomes']:
+                    return f'{name}: the call of close() never returned'
         return None
 
     def nontrivial(self, case, obs):
